@@ -138,3 +138,13 @@ Definition roi_ok (c : bytes * Z * Z) : bool :=
   | x => st =? status_of x
   end.
 Definition check_roi := mismatches roi_ok.
+
+From V Require Import C16.JsxEntities.
+(* js_lexer.decodeJSXEntities: (text, status, decoded units); entity names restricted to small_entity_table *)
+Definition jsxent_ok (c : bytes * Z * list Z) : bool :=
+  let '(t, st, out) := c in
+  match decodeJSXEntities true small_entity_table t with
+  | Ok o => (st =? 0) && zlist_eqb o out
+  | x => st =? status_of x
+  end.
+Definition check_jsxent := mismatches jsxent_ok.
